@@ -33,6 +33,8 @@ HARNESSES = [
       thorough=[{'KIND': 0, 'MAXD': 4, 'MAXE': 4}, {'KIND': 0, 'MAXD': 6, 'MAXE': 2, '_unwind': 8}, {'KIND': 1, 'MAXD': 4, 'MAXE': 4}]),
  dict(name='tuple3', src='harnesses/C01.c', func='h_tuple3', kernels=['C01_index'], unwind=5,
       bounds='tuple<size_t,size_t,size_t> shape, extents 1..MAXE', quick=[{'MAXE': 8}], thorough=[{'MAXE': 16}]),
+ dict(name='ct234', src='harnesses/C01.c', func='h_ct234', kernels=['C01_index'], unwind=26,
+      bounds='compute_indices / compute_offset with a COMPILE-TIME constant offset (all 24, selected by a symbolic offset) and the constant shape (2,3,4), against the run-time function and the Horner form', quick=[{}], thorough=[{}]),
  dict(name='layout3', src='harnesses/C01.c', func='h_layout3', kernels=['C01_index'], unwind=6,
       bounds='row- and column-major hybrid 3-d arrays (buffer capacity 64), extents 1..MAXE, written/read multi-indices symbolic',
       quick=[{'MAXE': 4}], thorough=[{'MAXE': 4}]),
